@@ -6,8 +6,12 @@
    frames  : foperand = operand | (df (T (L T:<t>*) (D (<hexname> (L <cell>*))*)))     (distinct names, >= 1 column, rectangular)
              (ops binf <add|sub|mul|div> <a> <b> <how> <method> <ij|oj>)                a, b: foperand or list of foperands
              (ops aggf <sum|mean|count> (L (df ..)*) <how> <method> <ij|oj>)            frames with >= 2 columns each
+   others  : (ops cmp <gt|ge|lt|le> <a> <b> <how> <method>)    replies (bts (L (T T:<t> true|false)*)) | (flag true|false)
+             (ops mm <min|max> <a> <b> <how> <method>)           a, b: operand or list of operands; replies as `bin`
+             (ops pow <a> <b> <how> <method>)                    exponents NaN or non-negative integers, else bad-op
    replies : ... | (df (T (L T:<t>*) (D (<hexname> (L Q:<num>/<den> | F:nan ...))*))) -/
 import PygModel.OpsF
+import PygModel.OpsX
 import PygModel.AlignDriver
 
 namespace Pyg.OpsDriver
@@ -94,6 +98,18 @@ def colHowOf2 : Sexp → Option ColHow
   | .atom "ij" => some .ij | .atom "oj" => some .oj
   | _ => Option.none
 
+def cmpOf : Sexp → Option Cmp
+  | .atom "gt" => some .gt | .atom "ge" => some .ge | .atom "lt" => some .lt | .atom "le" => some .le
+  | _ => Option.none
+
+def mmOf : Sexp → Option MM
+  | .atom "min" => some .min | .atom "max" => some .max
+  | _ => Option.none
+
+def boperandStr : BOperand → String
+  | .ts idx vals => "(bts (L" ++ String.join ((idx.zip vals).map fun p => s!" (T T:{p.1} {p.2})") ++ "))"
+  | .flag b => s!"(flag {b})"
+
 abbrev St := Unit
 def init : St := ()
 def modelName : String := "ops"
@@ -110,6 +126,17 @@ def handle1 (op : String) (args : List Sexp) : Option String := do
       match aggregate g how m xs with
       | some s => pure ("ok " ++ operandStr (.ts s))
       | Option.none => pure "ok (num F:nan)"
+  | "cmp", [c, a, b, how, m] =>
+      let c ← cmpOf c; let a ← operandOf a; let b ← operandOf b; let how ← howOf how; let m ← dirOf m
+      pure ("ok " ++ boperandStr (cmpop c how m a b))
+  | "mm", [k, a, b, how, m] =>
+      let k ← mmOf k; let as ← operandsOf a; let bs ← operandsOf b; let how ← howOf how; let m ← dirOf m
+      match mmList k how m as bs with
+      | some r => pure ("ok " ++ operandStr r)
+      | Option.none => pure "ok N"
+  | "pow", [a, b, how, m] =>
+      let a ← operandOf a; let b ← operandOf b; let how ← howOf how; let m ← dirOf m
+      if powDomain b then pure ("ok " ++ operandStr (powop how m a b)) else Option.none
   | "binf", [o, a, b, how, m, ch] =>
       let o ← opOf o; let as ← foperandsOf a; let bs ← foperandsOf b; let how ← howOf how; let m ← dirOf m; let ch ← colHowOf2 ch
       match opListF o how m ch as bs with
